@@ -892,6 +892,28 @@ pub fn gen(rng: &mut Rng, tier: &str, dist: &mut Dist) -> Vec<String> {
             }
         }
     }
+    // chains with TWO BCJ filters over several blocks (one write): the outer filter hands its output to the
+    // inner one; whatever tail the outer filter leaves at the end of a block must not split the inner
+    // filter's stream (defect repaired by /repo 8554bda, found by the thorough tier)
+    for (i, chain) in [vec![(8u8, 994u32), (10, 0), (3, 78)], vec![(7, 0), (4, 0)], vec![(4, 16), (9, 0)], vec![(11, 2), (8, 0)], vec![(5, 4), (10, 4096)], vec![(8, 0), (7, 0)], vec![(6, 0), (10, 0)], vec![(8, 2), (5, 0)], vec![(11, 0), (4, 0)]].iter().enumerate() {
+        // constant fills that the INNER filters convert everywhere (ARM64 BL 0x97979797, ARM BL ..EB, PowerPC
+        // 0x49494949, x86 E8) and the outer ones leave alone, next to the generic classes
+        for class in ["runs", "random", "fill97", "fillEB", "fill49", "fillE8"] {
+            let data = match class {
+                "fill97" => vec![0x97u8; 12119 + i * 7],
+                "fillEB" => vec![0xEBu8; 12119 + i * 7],
+                "fill49" => vec![0x49u8; 12119 + i * 7],
+                "fillE8" => (0..12119 + i * 7).map(|j| if j % 5 == 0 { 0xE8u8 } else { 0 }).collect(),
+                _ => gen_data_len(rng, class, 12119 + i * 7),
+            };
+            let mut opts = gen_opts(rng, true, 1 << 16);
+            opts.dict = 4096;
+            opts.depth = 0;
+            dist.bump("xz.two_bcj_filters_multi_block");
+            let g = XzGen { check: 4, bs: Some(4096), filters: chain.clone(), opts, parts: vec![data], flushes: vec![] };
+            push_xz(&mut cmds, &g, rng, dist);
+        }
+    }
     // LZIP dictionary sizes BETWEEN representable ones (2^n - k*2^(n-4)): the header byte must round UP;
     // a 96-byte block repeated exactly dict_size bytes later needs the whole dictionary
     for nlog in 13..=(if tier == "thorough" { 16 } else { 14 }) {
